@@ -31,22 +31,34 @@ void pbt_property(Ctx &c) {
     Ctx a; a.sh = &g_aux; a.rng = pbt::mix(aux_seed, (uint64_t)(sc.type * 100 + sc.r * 10 + sc.c)); a.size = 30;
     sc.freq = {1e9};
     sc.box.push_back(gen_box(a, sc.type, sc.r, sc.c));
-    // pool: three reflects per port, a through per pair, one or two random full-matrix standards; <= 8
+    // pool (<= 8): up to three reflects per port, a through per pair, one or two random full-matrix standards, two
+    // reflects entered as a matrix with explicit VNACAL_ZERO off the diagonal, and a sparse multi-port standard
+    // whose transmission cells are reciprocal or ONE-directional with explicit zeros elsewhere (an isolator / a
+    // forward chain: its ports are connected although half of the off-diagonal cells are zero)
     Scenario pool = sc;
     {
         Gen g(a, pool);
         int d = std::min(sc.r, sc.c), P = sc.P;
         std::vector<R> theta(P); for (auto &t : theta) t = 2 * M_PIl * a.unit();
-        for (int p = 0; p < d; p++) for (int w = 0; w < 3; w++) { pool.stds.push_back(g.single(p, g.gen_refl(w, theta[p]))); pool.stds.back().entry = Standard::SINGLE; }
-        for (int p1 = 0; p1 < P; p1++) for (int p2 = p1 + 1; p2 < P; p2++) pool.stds.push_back(g.through(p1, p2));
+        std::vector<std::vector<Standard>> refl(d);
+        std::vector<Standard> others;
+        for (int p = 0; p < d; p++) for (int w = 0; w < 3; w++) { refl[p].push_back(g.single(p, g.gen_refl(w, theta[p]))); refl[p].back().entry = Standard::SINGLE; }
+        for (int p1 = 0; p1 < P; p1++) for (int p2 = p1 + 1; p2 < P; p2++) others.push_back(g.through(p1, p2));
         std::vector<int> inorder; for (int p = 0; p < P; p++) inorder.push_back(p);
-        pool.stds.push_back(g.full_random(inorder));
-        if (vm::is_16(sc.type) || P == 1) pool.stds.push_back(g.full_random(inorder));
-        // two reflects entered as a matrix with explicit VNACAL_ZERO off the diagonal (a leakage sample that
-        // depends on the zero handle being recognised whatever was looked up before)
-        if (P >= 2) pool.stds.push_back(g.dbl(0, 1, rnd_disk(a, 0.3L, 1.0L), rnd_disk(a, 0.3L, 1.0L), true, 1));
-        // keep at most 8 (drop reflects of the last port first)
-        while (pool.stds.size() > 8) pool.stds.erase(pool.stds.begin() + (d * 3 - 1 < (int)pool.stds.size() ? d * 3 - 1 : 0)), d = std::max(1, d);
+        others.push_back(g.full_random(inorder));
+        if (vm::is_16(sc.type) || P == 1) others.push_back(g.full_random(inorder));
+        // (a leakage sample that depends on the zero handle being recognised whatever was looked up before)
+        if (P >= 2) others.push_back(g.dbl(0, 1, rnd_disk(a, 0.3L, 1.0L), rnd_disk(a, 0.3L, 1.0L), true, 1));
+        if (P >= 2) others.push_back(g.sparse_multiport(g.perm_ports(2 + (int)a.draw(P - 1))));
+        // cap at 8: thin out the reflects first (never below one per port), then the rest
+        auto total = [&]() { size_t n = others.size(); for (auto &v : refl) n += v.size(); return n; };
+        while (total() > 8) {
+            int best = -1; for (int p = 0; p < d; p++) if (refl[p].size() > 1 && (best < 0 || refl[p].size() > refl[best].size() || (refl[p].size() == refl[best].size() && a.boolean()))) best = p;
+            if (best >= 0) refl[best].erase(refl[best].begin() + a.draw(refl[best].size()));
+            else others.erase(others.begin() + a.draw(others.size()));
+        }
+        for (auto &v : refl) for (auto &st : v) pool.stds.push_back(st);
+        for (auto &st : others) pool.stds.push_back(st);
         for (auto &st : pool.stds) if (c.exhaustive) { st.abbrev_rows = st.abbrev_cols = false; }
     }
     size_t npool = pool.stds.size();
